@@ -5,18 +5,34 @@
    Object/JsonObject.hpp set: for every member obj[key].set(value): the member is created first (key slot + value slot; when
                         the second cannot be had the first is given back), then the value is copied into it — a member whose
                         value cannot be copied completely stays, holding what was copied, and the copy stops.
-   Strings and keys of the same document are found in the string pool (no allocation); scalars that need an extension slot
-   (doubles, 64-bit integers) are not covered here. *)
+   Strings and keys of the same document are found in the string pool (no allocation). *)
 From Coq Require Import List NArith ZArith Bool.
 From AJ Require Import Model.Base Model.Value.
 Import ListNotations.
+
+(* a double, or an integer outside [-2^31, 2^32), keeps its 8 bytes in an extension slot (VariantData::setFloat(double),
+   setInteger; doubles enabled): one more slot, and when it cannot be had the value stays null and the operation fails.
+   (An integer in [2^31, 2^32) fits the 32-bit unsigned storage when it is given through an unsigned type, as the JSON reader and
+   the unsigned MessagePack formats do; given through a signed 64-bit type it would take an extension slot: the correspondence run
+   stays out of that range.) *)
+Definition ext (v : jv) : nat :=
+  match v with
+  | JDouble _ => 1
+  | JInt z => if (Z.ltb z (-2147483648) || Z.leb 4294967296 z)%bool then 1 else 0
+  | _ => 0
+  end.
+Definition scalar_budget (v : jv) (b : nat) : jv * nat * bool :=
+  match ext v with
+  | O => (v, b, true)
+  | S _ => match b with O => (JNull, O, false) | S b1 => (v, b1, true) end
+  end.
 
 (* slots a value occupies below its own slot *)
 Fixpoint slots (v : jv) : nat :=
   match v with
   | JArr l => (fix go (l : list jv) : nat := match l with [] => O | e :: t => S (slots e) + go t end) l
   | JObj l => (fix go (l : list (bytes * jv)) : nat := match l with [] => O | (_, e) :: t => S (S (slots e)) + go t end) l
-  | _ => O
+  | _ => ext v
   end.
 
 (* the copy of v with b slots available: (what the destination holds afterwards, slots still available, complete?)
@@ -53,13 +69,13 @@ Fixpoint copy_budget (v : jv) (b : nat) : jv * nat * bool :=
                  else (JObj (rev_append ((k, pe) :: acc) []), b', false)     (* the member stays with what was copied *)
              end
          end) l [] b
-  | _ => (v, b, true)
+  | _ => scalar_budget v b
   end.
 
 (* ---- reading a document (deserializeJson / deserializeMsgPack into a fresh document) when only b slots can be had:
    the readers take the slot of an element (ArrayData::addElement) or the two slots of a member (ObjectData::addMember, after
    the key was saved) FIRST and then read the value into it: nothing is rolled back, the element or member that was being read
-   stays with what was read.  `v` is the value the input denotes (no repeated keys, no value that needs an extension slot);
+   stays with what was read.  `v` is the value the input denotes (no repeated keys);
    result: (the document afterwards, slots still available, Ok?) — not Ok is NoMemory ---- *)
 Fixpoint read_budget (v : jv) (b : nat) : jv * nat * bool :=
   match v with
@@ -90,5 +106,5 @@ Fixpoint read_budget (v : jv) (b : nat) : jv * nat * bool :=
                  else (JObj (rev_append ((k, pe) :: acc) []), b', false)
              end
          end) l [] b
-  | _ => (v, b, true)
+  | _ => scalar_budget v b
   end.
